@@ -13,9 +13,13 @@ RULE = ("case = one schema cooked into 7 engines: default LRU(512), lru_cache(1)
         "cache, a randomly evicting cache (all recording hits/misses/evictions) and an uncached long-lived reference; x %d "
         "request sequences of length 6-40 over a pool of 3-10 requests: valid, failing (injected faults), invalid, "
         "syntactically broken, same text with other variables / operation names / worlds, str and bytes spellings of the "
-        "same text, immediate repeats, failures followed by successes. Oracle: at every position every engine's response "
+        "same text, Boolean-flipped twins of one text, rule-violating rewrites sharing fragment names with the valid "
+        "documents, immediate repeats, failures followed by successes; 35%% of the cases give every engine an in-place "
+        "annotating error coercer. Oracle: at every position every engine's response "
         "equals the uncached reference's response (data exactly, errors as multisets), and for a sample of positions also "
-        "the response of a brand-new uncached engine built for that single request. non-trivial = sequence in which the "
+        "the response of a brand-new uncached engine built for that single request; the uncached engine itself answers one "
+        "request identically wherever it stands in the sequence and never refuses a request generated valid whose "
+        "reference-executor answer has data. non-trivial = sequence in which the "
         "cached engines together saw >=1 hit after a miss and >=1 eviction or invalid-document hit; distinct by (SDL, "
         "sequence)") % SEQS_PER_SCHEMA
 ASSUMPTIONS = ["pure resolvers", "responses compared after normalising error order"]
